@@ -131,6 +131,8 @@ func runC11(c *Ctx) {
 	checkExcerptDataPath(c, "R11.9")
 	checkLoadAllOrRebuild(c, "R11.10")
 	checkMergeResultsDrained(c, "R11.11")
+	// what the live identity answers is what is read back from git: a new version never rewrites a committed one in memory (shared with C09)
+	checkCloneDeep(c)
 	// removal and rebuild leave nothing behind in memory either (shared with C14)
 	checkRemovalSteps(c)
 	checkRebuildAndCLIRemoval(c)
